@@ -131,6 +131,11 @@ class Gen:
             sc["ro"].add(n)
             sc["arrs"][a] = (t, ln)
             return out
+        if k < 0.47:
+            # function-local static / thread-local counter
+            n, t = self.fresh("st"), r.choice(UINTS)
+            sc["ints"][n] = t
+            return [s_static(n, T(t), i_e(self.lit_for(t, small=True)), n, thread=r.random() < 0.3), s_asg("+=", var(n), self.lit_for(t, small=True)), s_obs(var(n))]
         if k < 0.55:
             # automatic array with a (possibly partial) brace initialiser: run-time initialisation code
             a, t, ln = self.fresh("la"), r.choice(ALL), r.randrange(1, 7)
@@ -162,6 +167,9 @@ class Gen:
             sc["structs"][t] = sid
             return out
         fs = [g for g in self.funcs if g.get("_sid") == sid]
+        if r.random() < 0.4:
+            fl = self.structs[sid - 1]["fields"]
+            return [s_asg("=", var(sname), clit(St(sid), i_list([i_e(self.lit_for(q["t"]["n"])) for q in fl[:r.randrange(1, len(fl) + 1)]]))), s_obs(mem(var(sname), f["n"]))]
         if fs:
             return [s_call(fs[0]["name"], [var(sname), self.expr(sc, 2)], var(sname))]
         return []
